@@ -238,8 +238,9 @@ class _Peer(object):
         cert.signature = b"\x00" * 64     # invalid signature is only logged by the client
         return cert.SerializeToString()
 
-    def handshake(self, feed):
-        """Serve one handshake. `feed(bytes)` delivers bytes to the stack (network.onRecvData)."""
+    def handshake(self, feed, corrupt=False):
+        """Serve one handshake. `feed(bytes)` delivers bytes to the stack (network.onRecvData).
+        corrupt=True: one byte of the server hello's encrypted part is flipped and nothing else is served."""
         from consonance.proto import wa20_pb2
         from dissononce.processing.handshakepatterns.interactive.XX import XXHandshakePattern
         from dissononce.processing.handshakepatterns.interactive.IK import IKHandshakePattern
@@ -258,6 +259,10 @@ class _Peer(object):
             pair = hs.write_message(b"", buf)
             out.server_hello.ephemeral = bytes(buf[:32])
             out.server_hello.payload = bytes(buf[32:])
+            if corrupt:
+                out.server_hello.payload = bytes([buf[32] ^ 0x5A]) + bytes(buf[33:])
+                feed(self.frame(out.SerializeToString()))
+                return
             feed(self.frame(out.SerializeToString()))
         else:
             self.pattern = "XX"
@@ -268,6 +273,10 @@ class _Peer(object):
             out.server_hello.ephemeral = bytes(buf[:32])
             out.server_hello.static = bytes(buf[32:80])
             out.server_hello.payload = bytes(buf[80:])
+            if corrupt:
+                out.server_hello.static = bytes([buf[32] ^ 0x5A]) + bytes(buf[33:80])
+                feed(self.frame(out.SerializeToString()))
+                return
             feed(self.frame(out.SerializeToString()))
             fin = wa20_pb2.HandshakeMessage()
             fin.ParseFromString(self.wait_frame())
@@ -416,7 +425,7 @@ class Rig(object):
                 break
             fn()
 
-    def _connect(self):
+    def _connect(self, stop_before_server_hello=False):
         from yowsup.layers import YowLayerEvent
         from yowsup.layers.network import YowNetworkLayer
         old = self.net._dispatcher
@@ -431,8 +440,15 @@ class Rig(object):
         import contextlib
         with contextlib.redirect_stdout(io.StringIO()):
             self.net.onConnected()       # -> EVENT_STATE_CONNECTED up -> EVENT_AUTH down -> handshake worker
+        if stop_before_server_hello:
+            return                       # the worker has written its hello and waits: protocol state "handshake"
+        self._connect_finish()
+
+    def _connect_finish(self, corrupt=False):
+        """Second half of a connect: the peer answers the client hello.  corrupt=True: the server hello does not
+        authenticate, the handshake fails (a <failure> goes up, protocol state error) and RigError is NOT raised."""
         try:
-            self.peer.handshake(self.net.onRecvData)
+            self.peer.handshake(self.net.onRecvData, corrupt=corrupt)
         except RigError:
             raise
         except Exception as e:
@@ -441,6 +457,10 @@ class Rig(object):
         if w is not None:
             w.join(5.0)
         self._drain_detached()
+        if corrupt:
+            if self.noise._wa_noiseprotocol.state == "transport":
+                raise RigError("handshake completed although the server hello was corrupted")
+            return
         if self.noise._wa_noiseprotocol.state != "transport":
             raise RigError("noise layer state %r after handshake" % self.noise._wa_noiseprotocol.state)
         self.connected = True
